@@ -7,6 +7,24 @@ ID = "C02"
 PROPERTIES_V = "theories/Properties/C02.v"
 CASE_IMPORTS = "From GV Require Import Prelude.Base Model.Ws Model.WsCheck."
 ALLOWED_AXIOMS: list = []
+REFUTED = ["C02_valid_refuted (witness ops_orphan: removal through the parent + close leaves an orphan; open known finding)", "C02_close_valid_refuted", "C02_valid_upto_refuted", "C02_step_refuted (witness ops_forgot: a re-open forgets a pending object/data identifier whose node stays)"]
+PARTIAL = ["C02_valid_upto_orphans (for ALL fresh histories the file represents the tree up to pending/forgotten orphan nodes of dead objects/data)", "C02_close_valid_partial (Valid at close when only dead groups are pending and no earlier re-open forgot an orphan)", "C02_close_valid_nolinger", "C02_step_partial", "C02_valid_upto_partial"]
+LEVEL_TEXT = ("Unbounded Coq theorems: Valid f := the file is exactly the encoding of a finite tree with unique identifiers hanging from the Root link (every entity under its own id, every "
+              "child entry a hard link to the flat node, one parent each, all reachable, no id twice). For ALL histories without stale re-creation the file is valid up to the orphan nodes of "
+              "dead entities (C02_valid_upto_orphans) and valid at close when no object/data orphan lingers (C02_close_valid_*); the full statement is refuted (orphan after removal through the "
+              "parent: open known finding). Type links and property-group membership are outside the Coq model: checked at every close by an independent validator (oracle).")
+TRUSTED = [
+    "Coq 8.16.1 kernel + vm_compute (refutation witnesses, correspondence evaluation); Print Assumptions: closed under the global context for every theorem",
+    "hand-written model coq/theories/Model/Ws.v (memory tree + geoh5 file as a link graph with addresses) of Workspace.{create_entity, register, save_entity, update_attribute, remove_entity, remove_recursively, remove_children, remove_none_referents, close, open/fetch_or_create_root/fetch_children/load_entity}, Entity.parent setter, EntityContainer/ObjectBase.{add_children, remove_children}, H5Writer.{save_entity, write_entity, write_to_parent, remove_child, remove_entity, update_field/write_attributes/write_array_attribute/write_data_values}, H5Reader.{fetch_attributes, fetch_children}; tied to the code by comparing, after EVERY operation of generated histories, the live tree and a raw h5py dump of the file with the model (vm_compute)",
+    "modelled classes: RootGroup/ContainerGroup, Points, FloatData (one array token each); property groups, types, copies, other classes and concatenated drillholes are outside the Coq model and reach the check through the implementation-side oracle streams only",
+    "CPython/weakref/gc: the driver drops its references and runs gc.collect() after every operation, so 'dead' = 'not reachable from the root'; GC placement is represented by the explicit Sweep (listing getter) operations of the history",
+    "h5py/HDF5 behaviour (hard links = same object address, member iteration by name, attribute and dataset storage) is observed, not verified",
+    "tools/props/wsmodel.py (history generator, driver, canonicalisation of identifiers uuid.UUID(int=n+1) <-> n, raw dump, node digests, structural validator) and tools/props/wsext.py (extended oracle-only histories)",
+]
+ASSUMPTIONS = [
+    "operands are entities currently in the tree (no use-after-remove), identifiers are supplied explicitly so that model and code name entities alike",
+    "uuid4 never collides (fresh identifiers)",
+]
 DRIVE_TIMEOUT = 2400
 RULE = ("random API histories as for C01 (create/rename/flag/array/move/remove via workspace or parent/listing getters/"
         "identifier re-use/close+open), half of them ending with the three listing getters before the final close; after every "
